@@ -25,13 +25,19 @@ structure Geo where
   hi        : Nat                -- last usable value
   step      : Nat := 1           -- distance between values
   excluded  : List Nat := []     -- e.g. the gateway
-  capacity  : Nat                -- number of usable values
+  capacity  : Nat                -- number of usable values of the pool
+  extra     : List Nat := []     -- values outside the pool that may be served all the same (allocations of an
+                                 -- external allocator, e.g. Nexus); they do not count towards `capacity`
   offerHold : Nat := 60
   grace     : Nat := 60
   deriving Repr
 
-def Geo.usable (g : Geo) (v : Nat) : Bool :=
+/-- a value of the pool itself -/
+def Geo.inPool (g : Geo) (v : Nat) : Bool :=
   decide (g.lo ≤ v) && decide (v ≤ g.hi) && (g.step == 0 || (v - g.lo) % g.step == 0) && !(g.excluded.contains v)
+
+/-- a value that may be served -/
+def Geo.usable (g : Geo) (v : Nat) : Bool := g.inPool v || g.extra.contains v
 
 structure Binding where
   client : Nat
@@ -78,9 +84,9 @@ def foreignHolder (m : Mon) (c v : Nat) : Option Binding :=
 
 def insertNodup (v : Nat) (l : List Nat) : List Nat := if l.contains v then l else v :: l
 
-/-- distinct values occupied at `now` -/
+/-- distinct values of the pool occupied at `now` -/
 def heldValues (g : Geo) (m : Mon) : List Nat :=
-  m.table.foldl (fun acc b => if b.holding g m.now then insertNodup b.value acc else acc) []
+  m.table.foldl (fun acc b => if b.holding g m.now && g.inPool b.value then insertNodup b.value acc else acc) []
 
 def servedChecks (g : Geo) (m : Mon) (v : Nat) : List Verdict :=
   (if g.usable v then [] else [⟨"range", v, s!"value {v} is outside the pool or is a reserved address"⟩]) ++
@@ -121,7 +127,7 @@ def check (g : Geo) (m : Mon) : Ev → Mon × List Verdict
       | none => [])
   | .noOffer c =>
     let mine := m.table.any (fun b => b.client == c && b.holding g m.now)
-    let held := (heldValues g m).length + ((m.declined ++ m.soft).filter g.usable).eraseDups.length
+    let held := (heldValues g m).length + ((m.declined ++ m.soft).filter g.inPool).eraseDups.length
     (m, if !mine && held < g.capacity then
           [⟨"not-reusable", held, s!"client {c} refused for lack of values with {held} of {g.capacity} values held or declined"⟩]
         else [])
